@@ -505,7 +505,58 @@ def _pe_mutates_original():
     Interval.__call__ = call
 
 
+def _rows_repeat_tile():
+    import torch
+    from torchphysics.problem.samplers.sampler_base import PointSampler
+    from torchphysics.problem.spaces import Points
+    PointSampler._repeat_params = lambda self, params, n: Points(params.as_tensor.repeat(n, 1) if len(params) else params.as_tensor, params.space)
+
+
+def _rows_prod_outer():
+    from torchphysics.problem.samplers.sampler_base import ProductSampler
+    from torchphysics.problem.spaces import Points
+
+    def sp(self, params=Points.empty(), device="cpu"):
+        b = self.sampler_b.sample_points(params, device=device)
+        a = self.sampler_a.sample_points(params, device=device)       # not sampled per partner row
+        nb, na = len(b), len(a)
+        out = a.repeat(nb).join(Points(b.as_tensor.repeat_interleave(na, dim=0), b.space)) if params.isempty else self.sampler_a.sample_points(b, device=device)
+        self.set_length(len(out))
+        return out
+    ProductSampler.sample_points = sp
+
+
+def _rows_cut_n_plus_1():
+    from torchphysics.problem.samplers.sampler_base import PointSampler
+    PointSampler._cut_tensor_to_length_n = lambda self, points: points[: self.n_points + 1, ]
+
+
+def _rows_len_stale():
+    from torchphysics.problem.samplers.sampler_base import ConcatSampler
+    from torchphysics.problem.spaces import Points
+
+    def sp(self, params=Points.empty(), device="cpu"):
+        a = self.sampler_a.sample_points(params, device=device)
+        b = self.sampler_b.sample_points(params, device=device)
+        self.set_length(len(a))
+        return a | b
+    ConcatSampler.sample_points = sp
+
+
+def _rows_grid_dep_first_row():
+    from torchphysics.problem.samplers.sampler_base import PointSampler
+
+    def f(self, sample_function, params, i, device):
+        ith = params[0, ] if len(params) > 0 else params
+        own = params[i, ] if len(params) > 0 else params
+        new_points = sample_function(self.n_points, self.density, ith, device)
+        return new_points.join(self._repeat_params(own, len(new_points)))
+    PointSampler._sample_for_ith_param = f
+
+
 REGISTRY = {
+    "rows_repeat_tile": _rows_repeat_tile, "rows_prod_outer": _rows_prod_outer, "rows_cut_n_plus_1": _rows_cut_n_plus_1,
+    "rows_len_stale": _rows_len_stale, "rows_grid_dep_first_row": _rows_grid_dep_first_row,
     "pe_circle_radius_kept": _pe_circle_radius_kept, "pe_nv_left_only": _pe_nv_left_only,
     "pe_product_keeps_vars": _pe_product_keeps_vars, "pe_translate_inner_unbound": _pe_translate_inner_unbound,
     "pe_mutates_original": _pe_mutates_original,
@@ -526,6 +577,7 @@ REGISTRY = {
     "dl_target_perm": _dl_target_perm, "dl_len_floor": _dl_len_floor, "dl_agg_global_mean": _dl_agg_sum,
 }
 BY_PROPERTY = {
+    "C02": ["rows_repeat_tile", "rows_prod_outer", "rows_cut_n_plus_1", "rows_len_stale", "rows_grid_dep_first_row"],
     "C17": ["pe_circle_radius_kept", "pe_nv_left_only", "pe_product_keeps_vars", "pe_translate_inner_unbound", "pe_mutates_original"],
     "C18": ["box_union_swapped", "box_circle_axis", "box_rotate_two_corners", "box_interval_first_row"],
     "C10": ["vol_circle_bd_pi_r", "vol_tri_no_half", "vol_sphere_34", "vol_par_signed", "vol_cut_flag_ignored", "vol_density_floor"],
